@@ -408,6 +408,8 @@ structure ICfg where
   pyValueRange : Int × Int
   /-- classes for which a non-zero value is refused -/
   pyNoValueClasses : List Int
+  /-- PyArg_ParseTuple format units of (pid, ioclass, iodata) in psutil_proc_ioprio_set -/
+  units : List Char := ['i', 'i', 'i']
 
 /-- C11 6.5.7: `E1 << E2` on a signed `E1` is undefined when `E1 < 0` or `E1·2^E2` is not
     representable -/
@@ -431,9 +433,31 @@ def ioprioSetC (cfg : ICfg) (cls data : Int) : PyOut :=
     | none => .ub
     | some x => if data < 0 then .syscall (-1) else .syscall (orNat x data)
 
-/-- `cext.proc_ioprio_set(pid, ioclass, iodata)` called directly -/
-def ioprioSetExt (cfg : ICfg) (pid cls data : Arg) : PyOut :=
+/-- one integer format unit of PyArg_ParseTuple applied to a Python argument.  `i` / `l` are the
+    CHECKED converters (OverflowError outside C `int` / `long`); `I` / `k` are the UNCHECKED ones
+    (CPython: "without overflow checking" — the Python int is reduced modulo 2³² / 2⁶⁴, negative
+    values included); any other unit is not an integer unit here (TypeError) -/
+def parseUnit (u : Char) (a : Arg) : Except PyOut Int :=
+  if u = 'i' then parseCInt 32 a
+  else if u = 'l' then parseCInt 64 a
+  else match a with
+    | .other => .error .typeError
+    | .int v =>
+      if u = 'I' then .ok (v % 4294967296)
+      else if u = 'k' then .ok (v % 18446744073709551616)
+      else .error .typeError
+
+/-- the entry point with all three units checked 32-bit (`"iii"`) -/
+def ioprioSetExtChecked (cfg : ICfg) (pid cls data : Arg) : PyOut :=
   match parseCInt 32 pid, parseCInt 32 cls, parseCInt 32 data with
+  | .error e, _, _ => e
+  | .ok _, .error e, _ => e
+  | .ok _, .ok _, .error e => e
+  | .ok _, .ok c, .ok d => ioprioSetC cfg c d
+
+/-- `cext.proc_ioprio_set(pid, ioclass, iodata)` called directly, with the format units the source has -/
+def ioprioSetExt (cfg : ICfg) (pid cls data : Arg) : PyOut :=
+  match parseUnit (cfg.units.getD 0 'i') pid, parseUnit (cfg.units.getD 1 'i') cls, parseUnit (cfg.units.getD 2 'i') data with
   | .error e, _, _ => e
   | .ok _, .error e, _ => e
   | .ok _, .ok _, .error e => e
